@@ -278,6 +278,10 @@ pub broadcast proof fn lemma_fsum_ref_is_fsum(rem: Seq<&f64>, s: Seq<f64>, k: in
 {
     if k > 0 { lemma_fsum_ref_is_fsum(rem, s, k - 1); }
 }
+// Iterator::all: NOT specified (the result is an arbitrary boolean): code whose outcome depends on it
+// can only be proved if it is correct for both answers
+#[verifier::external_body]
+pub fn __all<I: Iterator, F: FnMut(I::Item) -> bool>(it: I, f: F) -> (r: bool) { unimplemented!() }
 
 // ---- prelude fragment: iter_ext_ideal.rs ----
 // (idealised) the additive identity Iterator::sum starts from denotes 0
